@@ -108,8 +108,9 @@ impl Scenario for C15Des {
         _ => Trig::RunIdle,
       });
     }
-    // tail 3 = a short-circuiting take(1) below finalize
-    serde_json::to_value(Case { threads_flavour: rng.chance(1, 2), src, tail: rng.below(4), trigs }).unwrap()
+    // tail 3 = a short-circuiting take(1) below finalize; tail 4 = take(1) and a
+    // second finalize (whose own callback is not the one counted) below it
+    serde_json::to_value(Case { threads_flavour: rng.chance(1, 2), src, tail: rng.below(5), trigs }).unwrap()
   }
   fn run(&self, case: &Value) -> Result<Outcome, String> {
     let case: Case = serde_json::from_value(case.clone()).map_err(|e| e.to_string())?;
@@ -137,6 +138,7 @@ impl Scenario for C15Des {
         0 => BoxSubscription::new(o.actual_subscribe(Probe(log.clone()))),
         1 => BoxSubscription::new(o.map(|v| v).actual_subscribe(Probe(log.clone()))),
         3 => BoxSubscription::new(o.take(1).actual_subscribe(Probe(log.clone()))),
+        4 => BoxSubscription::new(o.take(1).finalize(|| {}).actual_subscribe(Probe(log.clone()))),
         _ => BoxSubscription::new(o.filter(|_| true).tap(|_| {}).actual_subscribe(Probe(log.clone()))),
       };
       let u = std::rc::Rc::new(std::cell::RefCell::new(Some(u)));
@@ -162,6 +164,7 @@ impl Scenario for C15Des {
         0 => BoxSubscriptionThreads::new(o.actual_subscribe(Probe(log.clone()))),
         1 => BoxSubscriptionThreads::new(o.map(|v| v).actual_subscribe(Probe(log.clone()))),
         3 => BoxSubscriptionThreads::new(o.take(1).actual_subscribe(Probe(log.clone()))),
+        4 => BoxSubscriptionThreads::new(o.take(1).finalize_threads(|| {}).actual_subscribe(Probe(log.clone()))),
         _ => BoxSubscriptionThreads::new(o.filter(|_| true).tap(|_| {}).actual_subscribe(Probe(log.clone()))),
       };
       let u = std::rc::Rc::new(std::cell::RefCell::new(Some(u)));
@@ -181,7 +184,7 @@ impl Scenario for C15Des {
     // exactly once after unsubscribe" is judged there
     // a hot source under a short-circuiting take: the downstream ends the stream, the
     // subject then filters the finished subscriber, so only unsubscribe is left
-    let lenient_before_unsub = matches!(case.src, Src::IntervalTake(_)) || (case.tail == 3 && case.src == Src::Hot);
+    let lenient_before_unsub = matches!(case.src, Src::IntervalTake(_)) || (case.tail >= 3 && case.src == Src::Hot);
     let mut violation: Option<Violation> = None;
     let mut trace = format!("subscribe ");
     let mut repeats = 0u64;
@@ -242,7 +245,7 @@ impl Scenario for C15Des {
           // below a take(1) that has already ended the stream the subject filters
           // this (finished) subscriber: the terminal does not reach finalize any more
           // and only unsubscribe is left as a trigger
-          if matches!(case.src, Src::Hot) && !(case.tail == 3 && n > 0) {
+          if matches!(case.src, Src::Hot) && !(case.tail >= 3 && n > 0) {
             triggered = true;
           }
           trace.push_str(if *t == Trig::Complete { "complete " } else { "error " });
